@@ -1,6 +1,6 @@
 ENGINES = [
     {"name": "E-ENUM", "path": "harness/runner harness/circgen harness/bitsim harness/drbg",
-     "serves_properties": ["C01","C06","C13","C14","C15","C20"],
+     "serves_properties": ["C01","C06","C07","C13","C14","C15","C20"],
      "kind_free_text": "bounded-exhaustive enumeration (odometers over finite alphabets, simplest first) of cases run on the real code and compared with an independent reference; 16 worker processes; violations confirmed by 3 replays"},
 ]
 NOTES = ("Every check rebuilds its driver against /repo's current working tree (go build with replace => /repo). "
@@ -32,4 +32,8 @@ CHECKS = {
    technique="bounded-exhaustive enumeration of vector lengths x moduli x element-class pairs (VOLE) and of (a,b,s) x seeds (BMR gadgets) against math/big",
    text="VOLE over p2p.Conn on an in-memory link for 16 moduli from 2 to 2^256-1 (incl. 33..64-bit and 65..128-bit ones), every length 1..40 plus chunk-boundary lengths to 1025 (thorough 2000), element classes {0,1,2,p-1,p-2,p/2,random} scheduled so that every (x-class, y-class) pair occurs, multi-call histories, ideal and Chou-Orlandi base OT: u-r = x*y mod p, shares in [0,p). BMR FxSend/FxReceive for all (a,b) x 64 seeds (both values of r observed) and FxkSend/FxkReceive for b x 36 strings.",
    note="Free-running goroutines (two-party Kahn network, schedule-independent results); bmr label randomness seeded through an import-rewrite overlay generated at check time."),
+ "C07": dict(engine="E-ENUM", level="exploration",
+   technique="bounded-exhaustive enumeration: every operand width pair up to a bound with every operand value, plus algorithm-switch widths with a boundary alphabet, each builder circuit evaluated 64 lanes at a time against math/big",
+   text="28 builders (adder, subtractor, multiplier with 4 thresholds and the array/Karatsuba/Wallace algorithms directly, unsigned and signed division and modulo, 10 comparators, bitwise ops, logical ops, Hamming, MUX, Index, bit tests) x ALL operand width pairs 1..7 (thorough 1..8) x result widths {max, max+1, 2max, 2max+3, 1} x {Yao, GMW} with ALL operand values; then 16 (thorough 33) switch widths from 9 to 130 with the cross product of a boundary alphabet. Circuits are built exactly as ssa.Program.Circuit builds them (ConstPropagate, ShortCircuitXORZero, optional Prune, Compile).",
+   note="Reference = math/big reduced mod 2^wz; signed division conventions as pinned by testsuite/lang/divi.mpcl, modi.mpcl; signed builders and dividers with equal operand widths only."),
 }
